@@ -153,8 +153,8 @@ pub fn check_positional(cfg: &Cfg, scene: u64, cur_epoch: usize, dets: &[DBox], 
     if n == 0 {
         return Verdict::Ok { nontrivial: false, opt: 0, greedy: 0, pairs_gated: 0 };
     }
-    if m > 16 {
-        return Verdict::Skipped("more than 16 candidate tracks");
+    if m > 600 {
+        return Verdict::Skipped("more than 600 candidate tracks");
     }
     let mut w: Vec<Vec<Option<i64>>> = vec![vec![None; m]; n];
     let mut undec: Option<&'static str> = None;
@@ -200,7 +200,11 @@ pub fn check_positional(cfg: &Cfg, scene: u64, cur_epoch: usize, dets: &[DBox], 
         Some(o) => o,
         None => return Verdict::Violation("track-continued-twice".into(), json!({"assignment": assigned})),
     };
-    let (opt, best) = assign::best_assignment(&w, &own);
+    // exact optimum per connected component of the gated pairs (a component with more than 16 tracks is not solved)
+    let (opt, best) = match assign::best_assignment_sparse(&w, &own, 16) {
+        Some(x) => x,
+        None => return Verdict::Skipped("a connected component of gated pairs has more than 16 tracks"),
+    };
     let greedy = assign::greedy(&w, &own);
     let tau = (n as f64 * (4.0 + 4e-7 * maxw * 1e6)).ceil() as i64;
     if opt - obs > tau {
